@@ -148,8 +148,8 @@ func batchCase(stream string, load func() (*gonnx.Model, error), desc any, ins [
 					if math.Float64bits(want[i]) != math.Float64bits(got[i]) && !(want[i] == 0 && got[i] == 0) {
 						rep.Exact = false
 						d := math.Abs(want[i]-got[i]) / math.Max(1e-6, math.Max(math.Abs(want[i]), math.Abs(got[i])))
-						if math.IsNaN(d) {
-							d = math.Inf(1)
+						if math.IsNaN(d) || math.IsInf(d, 0) {
+							d = 1e300
 						}
 						if d > rep.MaxRel {
 							rep.MaxRel = d
@@ -209,6 +209,18 @@ func genC16(e *emitter, tier string) {
 				map[string][]float64{"data_input": rnd(N*s*3, 1), "init_hidden": rnd(N*5, 1)}, false))
 			e.emit(batchCase("sample:ndm", sampleModelLoader("ndm.onnx"), "ndm.onnx", []BatchIn{{"sensor_input", []int{N, s, 4}, 0}, {"setpoint_input", []int{N, 1}, 0}},
 				map[string][]float64{"sensor_input": rnd(N*s*4, 1), "setpoint_input": rnd(N, 1)}, false))
+			// lane-wise normalisations and transcendental chains (floats, tolerance)
+			gsm := &GraphJ{Inputs: []VInfoJ{{Name: "x", Dt: "f32", Dims: []any{"N", 4}}},
+				Nodes: []NodeJ{{Op: "Softmax", Ins: []string{"x"}, Outs: []string{"sm"}}, {Op: "LogSoftmax", Ins: []string{"x"}, Outs: []string{"ls"}},
+					{Op: "Tanh", Ins: []string{"x"}, Outs: []string{"th"}}, {Op: "Sigmoid", Ins: []string{"th"}, Outs: []string{"sg"}}},
+				Outputs: []string{"sm", "ls", "sg"}}
+			e.emit(batchCase("float:softmax-moderate", func() (*gonnx.Model, error) { return loadModel(gsm) }, gsm, []BatchIn{{"x", []int{N, 4}, 0}}, map[string][]float64{"x": rnd(N*4, 3)}, false))
+			if r == 0 && N >= 2 {
+				// the first element of the whole tensor is far above the other rows' values
+				d := make([]float64, N*4)
+				d[0] = 1000
+				e.emit(batchCase("float:softmax-first-element-far-above-other-rows", func() (*gonnx.Model, error) { return loadModel(gsm) }, gsm, []BatchIn{{"x", []int{N, 4}, 0}}, map[string][]float64{"x": d}, false))
+			}
 			// generated per-sample graphs in the exact regime (bit for bit)
 			for _, pg := range perSampleGraphs(e) {
 				g := pg.g
@@ -261,10 +273,40 @@ func perSampleGraphs(e *emitter) []perSample {
 			{Op: "ReduceMax", Attrs: []Attr{{Name: "axes", Type: "ints", Ints: []int64{2, 3}}, {Name: "keepdims", Type: "i", I: 0}}, Ins: []string{"a"}, Outs: []string{"y"}},
 		}, Outputs: []string{"y", "c"}},
 		[]BatchIn{{"x", []int{0, 2, 4, 3}, 0}}})
+	// conv with automatic padding and strides: the padding depends on the spatial extents only
+	out = append(out, perSample{"conv-autopad", &GraphJ{
+		Inputs: []VInfoJ{{Name: "x", Dt: "f32", Dims: []any{"N", 1, 5, 6}}},
+		Inits:  []InitJ{{Name: "w", T: tinyT("f32", []int{2, 1, 3, 3}, 5)}, {Name: "b", T: tinyT("f32", []int{2}, 6)}, {Name: "w2", T: tinyT("f32", []int{1, 1, 2, 3}, 7)}},
+		Nodes: []NodeJ{
+			{Op: "Conv", Attrs: []Attr{{Name: "auto_pad", Type: "s", S: "SAME_UPPER"}, {Name: "strides", Type: "ints", Ints: []int64{2, 2}}}, Ins: []string{"x", "w", "b"}, Outs: []string{"c1"}},
+			{Op: "Conv", Attrs: []Attr{{Name: "auto_pad", Type: "s", S: "SAME_LOWER"}, {Name: "strides", Type: "ints", Ints: []int64{2, 3}}}, Ins: []string{"x", "w"}, Outs: []string{"c2"}},
+			{Op: "Conv", Attrs: []Attr{{Name: "auto_pad", Type: "s", S: "SAME_UPPER"}, {Name: "strides", Type: "ints", Ints: []int64{3, 2}}, {Name: "dilations", Type: "ints", Ints: []int64{2, 1}}}, Ins: []string{"x", "w2"}, Outs: []string{"c3"}},
+		}, Outputs: []string{"c1", "c2", "c3"}},
+		[]BatchIn{{"x", []int{0, 1, 5, 6}, 0}}})
+	// index and shape operators that keep the batch axis
+	out = append(out, perSample{"shape-ops", &GraphJ{
+		Inputs: []VInfoJ{{Name: "x", Dt: "f32", Dims: []any{"N", 2, 3}}},
+		Inits: []InitJ{sh("st", []int{1}), sh("en", []int{3}), sh("ax", []int{2}), sh("ix", []int{2, 0, 0}), sh("us", []int{1}), sh("tgt", []int{1, 2, 2, 3}),
+			{Name: "k", T: tinyT("f32", []int{2, 3}, 3)}},
+		Nodes: []NodeJ{
+			{Op: "Transpose", Attrs: []Attr{{Name: "perm", Type: "ints", Ints: []int64{0, 2, 1}}}, Ins: []string{"x"}, Outs: []string{"t"}},
+			{Op: "Slice", Ins: []string{"x", "st", "en", "ax"}, Outs: []string{"sl"}},
+			{Op: "Gather", Attrs: []Attr{{Name: "axis", Type: "i", I: 2}}, Ins: []string{"x", "ix"}, Outs: []string{"ga"}},
+			{Op: "Concat", Attrs: []Attr{{Name: "axis", Type: "i", I: 2}}, Ins: []string{"x", "ga", "sl"}, Outs: []string{"cc"}},
+			{Op: "Unsqueeze", Ins: []string{"x", "us"}, Outs: []string{"u"}},
+			{Op: "Expand", Ins: []string{"u", "tgt"}, Outs: []string{"ex"}},
+			{Op: "ReduceMin", Attrs: []Attr{{Name: "axes", Type: "ints", Ints: []int64{1}}, {Name: "keepdims", Type: "i", I: 0}}, Ins: []string{"x"}, Outs: []string{"rm"}},
+			{Op: "ArgMax", Attrs: []Attr{{Name: "axis", Type: "i", I: 2}, {Name: "keepdims", Type: "i", I: 1}}, Ins: []string{"x"}, Outs: []string{"am"}},
+			{Op: "Sub", Ins: []string{"x", "k"}, Outs: []string{"d"}},
+			{Op: "Abs", Ins: []string{"d"}, Outs: []string{"ab"}},
+			{Op: "Less", Ins: []string{"x", "k"}, Outs: []string{"lt"}},
+			{Op: "MatMul", Ins: []string{"t", "x"}, Outs: []string{"mm"}},
+		}, Outputs: []string{"t", "sl", "ga", "cc", "ex", "rm", "am", "ab", "lt", "mm"}},
+		[]BatchIn{{"x", []int{0, 2, 3}, 0}}})
 	// recurrent operators: batch is axis 1 of X and of the states
-	for _, op := range []string{"RNN", "GRU", "LSTM"} {
-		G := map[string]int{"LSTM": 4, "GRU": 3, "RNN": 1}[op]
-		acts := make([]string, map[string]int{"LSTM": 3, "GRU": 2, "RNN": 1}[op])
+	for _, op := range []string{"RNN", "GRU", "LSTM", "GRU-lbr"} {
+		G := map[string]int{"LSTM": 4, "GRU": 3, "RNN": 1, "GRU-lbr": 3}[op]
+		acts := make([]string, map[string]int{"LSTM": 3, "GRU": 2, "RNN": 1, "GRU-lbr": 2}[op])
 		for i := range acts {
 			acts[i] = "relu"
 		}
@@ -278,9 +320,15 @@ func perSampleGraphs(e *emitter) []perSample {
 			vin = append(vin, VInfoJ{Name: "c0", Dt: "f32", Dims: []any{1, "N", 2}})
 			bins = append(bins, BatchIn{"c0", []int{1, 0, 2}, 1})
 		}
-		out = append(out, perSample{"rec-" + op, &GraphJ{Inputs: vin,
+		attrs := []Attr{{Name: "hidden_size", Type: "i", I: 2}, {Name: "activations", Type: "strings", Ss: acts}}
+		name := op
+		if op == "GRU-lbr" {
+			op = "GRU"
+			attrs = append(attrs, Attr{Name: "linear_before_reset", Type: "i", I: 1})
+		}
+		out = append(out, perSample{"rec-" + name, &GraphJ{Inputs: vin,
 			Inits: []InitJ{{Name: "W", T: tinyT("f32", []int{1, G * 2, 2}, 7)}, {Name: "R", T: tinyT("f32", []int{1, G * 2, 2}, 8)}, {Name: "B", T: tinyT("f32", []int{1, 2 * G * 2}, 9)}},
-			Nodes: []NodeJ{{Op: op, Attrs: []Attr{{Name: "hidden_size", Type: "i", I: 2}, {Name: "activations", Type: "strings", Ss: acts}}, Ins: ins, Outs: outs}},
+			Nodes: []NodeJ{{Op: op, Attrs: attrs, Ins: ins, Outs: outs}},
 			Outputs: outs}, bins})
 	}
 	return out
